@@ -684,6 +684,31 @@ func (env *SpecEnv) call(e *Expr) *Value {
 		specFail("len of %s", args[0])
 	case "jhas", "jok", "jfield", "jstr", "jint", "jbool", "jdecoded", "jstrs", "jmapint":
 		return env.specJSON(name, args)
+	case "zero":
+		t := env.lookupType(exprTypeName(args[0]))
+		if t == nil {
+			specFail("zero: unknown type %s", args[0])
+		}
+		return x.zeroValue(t)
+	case "opaque":
+		// opaque(T, "name", args...): an unspecified but fixed value of Go type T determined by the arguments
+		t := env.lookupType(exprTypeName(args[0]))
+		if t == nil || args[1].Op != "str" {
+			specFail("opaque(T, \"name\", args...)")
+		}
+		var ats []*Term
+		for _, a := range args[2:] {
+			ats = append(ats, leafTerms(env.eval(a))...)
+		}
+		nm := args[1].Name
+		v := buildValue(t, func(l Leaf) *Term {
+			return x.ctx.App("op$"+sanitize(nm)+"$"+sanitize(l.Path), l.Sort, ats...)
+		})
+		if !termsHaveBoundVar(ats) {
+			x.facts = append(x.facts, x.typeInv(v))
+			x.assumeZeroOffsetsQuiet(v)
+		}
+		return v
 	case "extcall":
 		// extcall("pkg.Func", args...): the result the pure extern yields for these arguments
 		if len(args) < 1 || args[0].Op != "str" {
@@ -850,6 +875,7 @@ func (env *SpecEnv) call(e *Expr) *Value {
 		if sig.Results().Len() == 1 {
 			resT = sig.Results().At(0).Type()
 		}
+		x.lawState = env.cur
 		return x.pureFuncCall(fvv, fvv.T, avs, resT)
 	}
 	if sf, ok := x.db.Funs[name]; ok {
@@ -1015,6 +1041,7 @@ func (env *SpecEnv) methodCall(fn *Expr, args []*Expr) *Value {
 				if sig.Results().Len() == 1 {
 					resT = sig.Results().At(0).Type()
 				}
+				x.lawState = env.cur
 				return x.pureFuncCall(fv, fld.Type(), avs, resT)
 			}
 		}
@@ -1372,6 +1399,15 @@ func isSubterm(sub, t *Term) bool {
 	}
 	for _, a := range t.Args {
 		if isSubterm(sub, a) {
+			return true
+		}
+	}
+	return false
+}
+
+func termsHaveBoundVar(ts []*Term) bool {
+	for _, t := range ts {
+		if termHasBoundVar(t) {
 			return true
 		}
 	}
